@@ -243,6 +243,10 @@ func (r *DecodeResult) NestedResult(tag int) (*DecodeResult, error) {
 	if err != nil {
 		return nil, err
 	}
+	if tmp == nil {
+		// an empty nested message: nothing was decoded and there is nothing to release
+		return nil, nil
+	}
 	tmp.skipClose = true
 	r.closers = append(r.closers, tmp)
 	return tmp, nil
@@ -278,10 +282,13 @@ func (r *DecodeResult) NestedResults(tag int) ([]*DecodeResult, error) {
 		if err != nil {
 			return nil, err
 		}
-		res.skipClose = true
+		if res != nil {
+			// (a nil result stands for an empty nested message)
+			res.skipClose = true
+			r.closers = append(r.closers, res)
+		}
 		results = append(results, res)
 	}
-	r.closers = append(r.closers, results...)
 	return results, nil
 }
 
